@@ -49,6 +49,7 @@ _CLS = {
     "overwrite": "OverwriteClassesWrapper", "allgather": "AllgatherClassWrapper", "pseudo": "KDPseudoLabelWrapper",
     "randomclass": "KDRandomClassWrapper", "semi": "SemiWrapper", "smoothing": "LabelSmoothingWrapper", "onehot": "OneHotWrapper",
 }
+_ONE_HOT = importlib.import_module("kappadata.utils.one_hot").to_one_hot_vector
 _MIX = importlib.import_module(_SW + "kd_mix_wrapper").KDMixWrapper
 W = types.SimpleNamespace(**{k: getattr(importlib.import_module(m), _CLS[k]) for k, m in _MODS.items()})
 
@@ -62,7 +63,8 @@ RULE = ("per wrapper kind (10 kinds, round-robin then random; 25% two-layer stac
         "(leaf, layers, two global-RNG seeds, access-order seed); non-trivial = >= 2 samples; distinct by full spec")
 ASSUMPTIONS = [
     "unseeded constructions (seed=None with shuffling, top-k pseudo labels without seed) are outside the 'function of arguments and seed' clause and are not driven",
-    "mapping wrappers that index tables by the incoming label (ClassGroupsWrapper, RandomSuperclassWrapper) and OneHotWrapper are only fed labelled, non-binary datasets; the property does not say what they do with -1 / binary labels",
+    "mapping wrappers that index tables by the incoming label (ClassGroupsWrapper, RandomSuperclassWrapper) are only fed labelled, non-binary datasets, OneHotWrapper only non-binary ones; the property does not say what they do with -1 / binary labels",
+    "one-hot encoding of an unlabelled (-1) sample (OneHotWrapper.getitem_class, utils.one_hot.to_one_hot_vector): accepted are a rejection by RuntimeError / ValueError / AssertionError / IndexError / NotImplementedError (enumerated refusal classes onehot-unlabeled, onehot-helper-unlabeled; the current code raises torch's 'Class values must be non-negative') or an output whose entries are all -1; any other output is 'unlabelled became a class'",
     "encoders are stacked only on wrappers that hand the leaf's label object through unchanged (SemiWrapper, AllgatherClassWrapper); which python type a mapping wrapper returns is not part of the property",
     "soft pseudo-label tables have a unique row maximum (gap > 1e-4) and moderate values (no probability below 1e-4), tau >= 0.5; top-k ties at the k-th value count as admissible",
     "SemiWrapper's count is floor(percent * n) evaluated in float64 or exactly; both are accepted",
@@ -74,12 +76,12 @@ ASSUMPTIONS = [
     "in-place edits of wrapped labels are observed through leaves whose bulk accessor hands out their own list / ndarray / tensor (as KDRandomClassWrapper.getall_class does); leaves returning copies cannot show them",
     "encoded vectors: tolerance 1e-5 on the sum, 1e-7 on sign and on the arg-max comparison (float32 arithmetic)",
 ]
-MONITORS = ["interference_reads_checked", "evidence_mix_samples_between_reads", "reconfigured_layers_checked", "exact_tie_tables", "bulk_vs_item_checked", "range_checked", "other_items_checked", "wrapped_labels_checked", "history_queries_checked",
+MONITORS = ["helper_unlabelled_probes", "interference_reads_checked", "evidence_mix_samples_between_reads", "reconfigured_layers_checked", "exact_tie_tables", "bulk_vs_item_checked", "range_checked", "other_items_checked", "wrapped_labels_checked", "history_queries_checked",
             "seed_differential_checked", "encoding_checked", "aliasing_leaf_cases", "topk_bulk_refusals"]
 
 KINDS = list(_MODS)
 BINARY_OK = {"swap", "overwrite", "allgather", "pseudo", "randomclass", "semi", "smoothing"}
-UNL_OK = {"swap", "overwrite", "allgather", "pseudo", "randomclass", "semi", "smoothing"}
+UNL_OK = {"swap", "overwrite", "allgather", "pseudo", "randomclass", "semi", "smoothing", "onehot"}
 ENCODERS = {"smoothing", "onehot"}
 PASS_THROUGH = {"semi", "allgather"}
 TENSOR_ITEM_OK = {"smoothing", "onehot", "semi", "allgather"}
@@ -233,7 +235,9 @@ def _allowed_second(kind1, layer1, n, dim, unl):
         return []
     out = []
     for k in KINDS:
-        if k in ("classgroups", "superclass", "onehot") and (unl or dim == 1):
+        if k in ("classgroups", "superclass") and (unl or dim == 1):
+            continue
+        if k == "onehot" and dim == 1:
             continue
         if k in ENCODERS and kind1 not in PASS_THROUGH:
             continue
@@ -288,7 +292,7 @@ def _gen_reconfig(rng):
     nc = rng.randint(lo, 10)
     mode = rng.choice(["random", "randperm"])
     layers = [{"kind": "randomclass", "mode": mode, "num_classes": nc, "seed": _seed_choice(rng)}]
-    mids = (["semi"] if enc == "smoothing" else []) + (["allgather"] if n >= 1 else [])  # one-hot is not fed -1
+    mids = ["semi"] + (["allgather"] if n >= 1 else [])
     if mids and rng.random() < 0.35:
         layers.append(_gen_layer(rng, rng.choice(mids), n, nc, False)[0])
     layers.append(_gen_layer(rng, enc, n, nc, False)[0])
@@ -532,12 +536,7 @@ def _observe(run, L, below, w, below_labels, dim_in, leaf, leaf_spec, ops_seed, 
         return nb
 
     def item_call(i, with_ctx):
-        if with_ctx:
-            ctx = {}
-            _, v = _real(run, lambda: w.getitem_class(i, ctx=ctx), f"{k}:item-crash", f"{what}: getitem_class({i}, ctx={{}})")
-        else:
-            _, v = _real(run, lambda: w.getitem_class(i), f"{k}:item-crash", f"{what}: getitem_class({i})")
-        return v
+        return _get_item(run, k, w, i, below_labels[i] == -1, what, with_ctx)
 
     # ---- history: random order of bulk / per-sample / x queries; one answer per query
     first = {}
@@ -593,6 +592,8 @@ def _observe(run, L, below, w, below_labels, dim_in, leaf, leaf_spec, ops_seed, 
     # ---- labels (or encodings)
     if k in ENCODERS:
         items = _check_encodings(run, L, what, raw, bulk, below_labels, dim_in, dim)
+        if k == "onehot" and dim >= 2:
+            _helper_probe(run, what, dim)
         if interfere:
             _encoder_interference(run, L, what, w, below, canon, bulk, below_labels, dim_in, dim, n, ops_seed)
     else:
@@ -636,6 +637,50 @@ def _observe(run, L, below, w, below_labels, dim_in, leaf, leaf_spec, ops_seed, 
     return out
 
 
+_REFUSED = "<refused: unlabelled sample>"
+_REJECTIONS = (RuntimeError, ValueError, AssertionError, IndexError, NotImplementedError)
+
+
+def _get_item(run, k, w, i, unlabelled, what, with_ctx=False):
+    """one per-sample read. One-hot encoding of an unlabelled (-1) sample is the enumerated refusal class
+    'onehot-unlabeled': the repository rejects the value with an exception (-> _REFUSED) or returns something that is
+    judged by the encoding clauses; everything else goes through call_real"""
+    fn = (lambda: w.getitem_class(i, ctx={})) if with_ctx else (lambda: w.getitem_class(i))
+    if k == "onehot" and unlabelled:
+        try:
+            return fn()
+        except core.StepBudgetExceeded:
+            raise
+        except _REJECTIONS:
+            run.refusal("onehot-unlabeled")
+            return _REFUSED
+        except Exception as e:
+            run.violation(f"{k}:item-crash:{type(e).__name__}", f"{what}: getitem_class({i}) of an unlabelled sample: {type(e).__name__}: {e}\n{core.short_tb(e)}")
+            raise _Abort
+    _, v = _real(run, fn, f"{k}:item-crash", f"{what}: getitem_class({i}{', ctx={}' if with_ctx else ''})")
+    return v
+
+
+def _helper_probe(run, what, dim):
+    """kappadata.utils.one_hot.to_one_hot_vector (anchored helper, also used by the mix wrapper) with the -1 marker as
+    python int and as 0-d tensor: rejected by an exception, or an output that still says 'unlabelled'"""
+    for y in (-1, torch.tensor(-1)):
+        run.count("helper_unlabelled_probes")
+        try:
+            v = _ONE_HOT(y, n_classes=dim)
+        except core.StepBudgetExceeded:
+            raise
+        except _REJECTIONS:
+            run.refusal("onehot-helper-unlabeled")
+            continue
+        except Exception as e:
+            run.violation(f"onehot:helper-crash:{type(e).__name__}", f"{what}: to_one_hot_vector({y!r}, n_classes={dim}): {type(e).__name__}: {e}\n{core.short_tb(e)}")
+            raise _Abort
+        if not H.is_marker(v):
+            run.violation("onehot:unlabeled-becomes-class", f"{what}: to_one_hot_vector({y!r}, n_classes={dim}) returned {_s(v)} — the -1 marker must be rejected or stay a marker, never become a class")
+            raise _Abort
+
+
 def _encoder_interference(run, L, what, w, below, canon, bulk, below_labels, dim_in, dim, n, ops_seed):
     """the caller owns what it gets: between two reads of the same items (i) the vectors returned by a read are
     modified in place and (ii) the library's own in-place consumer of one-hot vectors (KDMixWrapper with mixup_p=1,
@@ -644,7 +689,7 @@ def _encoder_interference(run, L, what, w, below, canon, bulk, below_labels, dim
     k = L["kind"]
     if n == 0:
         return
-    _, again = _real(run, lambda: [w.getitem_class(i) for i in range(n)], f"{k}:item-crash", what)
+    again = [_get_item(run, k, w, i, below_labels[i] == -1, what) for i in range(n)]
     touched = 0
     for v in again:
         if torch.is_tensor(v) and v.is_floating_point():
@@ -665,7 +710,7 @@ def _encoder_interference(run, L, what, w, below, canon, bulk, below_labels, dim
     fresh_w = _ctor(L, below, n, dim_in, None, {})
     _, fresh_w = _real(run, fresh_w, f"{k}:ctor-crash", what)
     for name, ds in (("the same wrapper", w), ("a fresh wrapper", fresh_w)):
-        _, later = _real(run, lambda: [ds.getitem_class(i) for i in range(n)], f"{k}:item-crash", what)
+        later = [_get_item(run, k, ds, i, below_labels[i] == -1, what) for i in range(n)]
         later_canon = [H.canon_item(v) for v in later]
         bad = [i for i in range(n) if later_canon[i] != canon[i]]
         if bad:
@@ -711,8 +756,17 @@ def _check_encodings(run, L, what, raw, bulk, below_labels, dim_in, dim):
         run.count("encoding_checked")
         here = f"{what}: sample {i} (original label {o}, bulk label {b}) encodes as {_s(v)}"
         if o == -1:
+            if v is _REFUSED:  # rejected by the repository's own exception (refusal class onehot-unlabeled)
+                if b != -1:
+                    V(f"{k}:bulk-vs-item", here)
+                    raise _Abort
+                items.append(-1)
+                continue
             if not H.is_marker(v):
-                V(f"{k}:marker-not-passed", here + " — an unlabelled sample must stay marked with -1")
+                if k == "onehot":
+                    V("onehot:unlabeled-becomes-class", here + " — an unlabelled sample must be rejected or stay marked, never be encoded as a class")
+                else:
+                    V(f"{k}:marker-not-passed", here + " — an unlabelled sample must stay marked with -1")
                 raise _Abort
             if b != -1:
                 V(f"{k}:bulk-vs-item", here)
